@@ -100,6 +100,32 @@ def real_trace(n, steps, shape='dense', via_load=None):
     return trace
 
 
+def multi_source_trace(n, k, extra):
+    """k counting sources concatenated into one stream (optionally through further row-wise steps): pulls from any source
+    and deliveries at the end, in the order they happen"""
+    trace = []
+
+    def src(j):
+        for i in range(n):
+            trace.append('p')
+            yield {'i': i, 's': j}
+
+    def sink(rows):
+        for r in rows:
+            trace.append('d')
+            yield r
+    with quiet():
+        Flow(*[src(j) for j in range(k)], DF.concatenate({'i': [], 's': []}), *extra, sink).process()
+    pulled = delivered = worst = 0
+    for t in trace:
+        if t == 'p':
+            pulled += 1
+        else:
+            delivered += 1
+            worst = max(worst, pulled - delivered)
+    return worst, delivered
+
+
 def max_lookahead(trace):
     pulled = 0
     worst = 0
@@ -164,6 +190,22 @@ def run(ctx):
                 pulled = sum(1 for t in tr if t[0] == 'p')
                 if lim is not None and pulled > min(n, lim) + S:
                     rep.fail('limit_rows-reads-beyond-the-limit', case, {'pulled': pulled, 'limit_rows': lim})
+    # several sources merged by concatenate: every source has its own inference sample, nothing else is read ahead
+    for k in (2, 3):
+        for extra_kind in ('none', 'row_fn'):
+            extra = [] if extra_kind == 'none' else [lambda row: None]
+            las = {}
+            for n in ([300, 2000] if ctx.quick else [300, 2000, 20000]):
+                la, delivered = multi_source_trace(n, k, extra)
+                las[n] = la
+                case = {'pipeline': ['concatenate of %d sources' % k, extra_kind], 'n_per_source': n}
+                rep.case('trace:concatenate', case, key=['concat', k, extra_kind, n], nontrivial=delivered > 0)
+                if delivered != k * n:
+                    rep.fail('concatenate-lost-rows', case, {'delivered': delivered})
+                if la > k * S:
+                    rep.fail('lookahead-exceeds-samples:concatenate', case, {'max_lookahead': la, 'bound': k * S})
+            if len(set(las.values())) > 1:
+                rep.fail('lookahead-grows-with-n:concatenate', {'sources': k, 'then': extra_kind}, las)
     if ctx.model.available():
         outs = ctx.model.run([op for _, op, _ in pending])
         for (case, _op, tr), mo in zip(pending, outs):
